@@ -118,7 +118,7 @@ class UFunc(Callable_):
             outs.append(('ok', s1, self.f(*a)))
         if self.raises:
             e = self.exc(*a)
-            s2 = st.fork().assume(z3.Not(self.ok(*a)), V.isinst(e, self.raises))
+            s2 = st.fork().assume(z3.Not(self.ok(*a)), V.isinst(e, self.raises), *V.cls_facts(e))
             if ex.feasible(s2):
                 outs.append(('raise', s2, e))
         else:
@@ -187,7 +187,7 @@ class Source(Obj):
             s3 = live.fork()
             e = fresh('e_src')
             classes = self.may_raise if isinstance(self.may_raise, (tuple, list)) else (self.may_raise,)
-            s3.assume(z3.Or([V.isinst(e, c) for c in classes]))
+            s3.assume(z3.Or([V.isinst(e, c) for c in classes]), *V.cls_facts(e))
             s3.assume(z3.Not(V.isinst(e, 'StopIteration')), z3.Not(V.isinst(e, 'GeneratorExit')))
             s3.ghost[self.key + '.failed'] = z3.BoolVal(True)
             s3.ghost[self.key + '.error'] = e
@@ -500,4 +500,128 @@ class Sleep(Callable_):
             t = z3.ToReal(t)
         st.ghost[self.key] = st.ghost[self.key] + t
         st.ghost['slept'] = st.ghost.get('slept', z3.RealVal(0)) + t
+        return [('ok', st, NONE)]
+
+
+# ------------------------------------------------------------------ futures, pipes (sequential view)
+class Future(Obj):
+    """concurrent.futures.Future with concrete identity, seen by the code that resolves / queries it.
+    state: done (Bool), is_exc (Bool), val (Val).  Resolving twice is a failed obligation (CPython raises InvalidStateError)."""
+    trusted = 'concurrent.futures.Future: set_result/set_exception resolve a pending future exactly once; result()/exception() report that outcome'
+    cls_name = 'Future'
+
+    def __init__(self, ex, label='future'):
+        super().__init__(ex, label)
+
+    def init(self, st, done=False):
+        self.set(st, 'done', z3.BoolVal(done))
+        self.set(st, 'is_exc', z3.BoolVal(False))
+        self.set(st, 'val', NONE)
+        self.set(st, 'nset', z3.IntVal(0))
+        return self
+
+    def havoc(self, ex, st):
+        pass        # only the verified role resolves it (single resolver); queried after the resolver finished
+
+    def _resolve(self, ex, st, v, is_exc, node):
+        ex.oblige(st, f'line {node.lineno}: the future is still pending when it is resolved (exactly-once)', z3.Not(self.get(st, 'done')))
+        st = st.fork()
+        self.set(st, 'done', z3.BoolVal(True))
+        self.set(st, 'is_exc', z3.BoolVal(is_exc))
+        self.set(st, 'val', box(ex, v))
+        self.set(st, 'nset', self.get(st, 'nset') + 1)
+        return [('ok', st, NONE)]
+
+    def m_set_result(self, ex, st, args, kwargs, node):
+        return self._resolve(ex, st, args[0], False, node)
+
+    def m_set_exception(self, ex, st, args, kwargs, node):
+        ex.oblige(st, f'line {node.lineno}: set_exception is given an exception', V.isinst(box(ex, args[0]), 'BaseException'))
+        return self._resolve(ex, st, args[0], True, node)
+
+    def m_done(self, ex, st, args, kwargs, node):
+        return [('ok', st, self.get(st, 'done'))]
+
+    def m_exception(self, ex, st, args, kwargs, node):
+        ex.oblige(st, f'line {node.lineno}: the future is resolved when its outcome is read (no indefinite wait)', self.get(st, 'done'))
+        st = st.fork().assume(self.get(st, 'done'))
+        return [('ok', st, z3.If(self.get(st, 'is_exc'), self.get(st, 'val'), NONE))]
+
+    def m_result(self, ex, st, args, kwargs, node):
+        ex.oblige(st, f'line {node.lineno}: the future is resolved when its outcome is read (no indefinite wait)', self.get(st, 'done'))
+        st = st.fork().assume(self.get(st, 'done'))
+        outs = []
+        s1 = st.fork().assume(z3.Not(self.get(st, 'is_exc')))
+        if ex.feasible(s1):
+            outs.append(('ok', s1, self.get(st, 'val')))
+        s2 = st.fork().assume(self.get(st, 'is_exc'))
+        if ex.feasible(s2):
+            outs.append(('raise', s2, self.get(st, 'val')))
+        return outs
+
+
+class FutureCtor(Callable_):
+    trusted = Future.trusted
+
+    def invoke(self, ex, st, args, kwargs, node):
+        f = Future(ex)
+        st = st.fork()
+        f.init(st)
+        return [('ok', st, f)]
+
+
+class PipeWriter(Obj):
+    """multiprocessing Connection, sending end: ghost `sent` (objects sent in order), `closed`."""
+    trusted = 'multiprocessing.Connection: objects sent are received in order, intact (pickle fidelity); recv on a closed, drained pipe raises EOFError'
+
+    def init(self, st):
+        self.set(st, 'sent', V.EMPTY)
+        self.set(st, 'closed', z3.BoolVal(False))
+        return self
+
+    def havoc(self, ex, st):
+        pass
+
+    def m_send(self, ex, st, args, kwargs, node):
+        ex.oblige(st, f'line {node.lineno}: send on an open connection', z3.Not(self.get(st, 'closed')))
+        st = st.fork()
+        self.set(st, 'sent', z3.Concat(self.get(st, 'sent'), z3.Unit(box(ex, args[0]))))
+        return [('ok', st, NONE)]
+
+    def m_close(self, ex, st, args, kwargs, node):
+        st = st.fork()
+        self.set(st, 'closed', z3.BoolVal(True))
+        return [('ok', st, NONE)]
+
+
+class PipeReader(Obj):
+    """receiving end: each recv returns the next object the peer sent, or raises EOFError if the peer died/closed first.
+    ghost `script`: what the peer will have sent (a prefix of its contract's two messages when it crashes)."""
+    trusted = PipeWriter.trusted
+
+    def init(self, st, script):
+        self.set(st, 'script', script)         # Seq of what the peer sends before closing/dying
+        self.set(st, 'nrecv', z3.IntVal(0))
+        self.set(st, 'closed', z3.BoolVal(False))
+        return self
+
+    def havoc(self, ex, st):
+        pass
+
+    def m_recv(self, ex, st, args, kwargs, node):
+        sc, n = self.get(st, 'script'), self.get(st, 'nrecv')
+        outs = []
+        s1 = st.fork().assume(n < z3.Length(sc))
+        if ex.feasible(s1):
+            self.set(s1, 'nrecv', n + 1)
+            outs.append(('ok', s1, sc[n]))
+        s2 = st.fork().assume(n >= z3.Length(sc))
+        if ex.feasible(s2):
+            s2.ghost['peer_gone'] = z3.BoolVal(True)
+            outs.append(ex.raise_new(s2, 'EOFError'))
+        return outs
+
+    def m_close(self, ex, st, args, kwargs, node):
+        st = st.fork()
+        self.set(st, 'closed', z3.BoolVal(True))
         return [('ok', st, NONE)]
